@@ -6,7 +6,9 @@
 //! at create time, e.g. a bind mount with a missing source: no container exists afterwards);
 //! `docker logs|exec|port` naming a container that does not exist exit 1 ("No such container") -
 //! a consequence of the earlier failure, not a further fault; `docker rm --force` of a missing
-//! container exits 0 as the real CLI does.
+//! container exits 0 as the real CLI does. Images likewise (`$FAKECLI_LOG.images`): only a
+//! successful `pack build` creates one; `docker rmi`, `docker run` and `pack sbom download` naming a
+//! missing image fail as a consequence (exit 1 / 125).
 use std::io::Write;
 fn main() {
     let args: Vec<String> = std::env::args().collect();
@@ -73,6 +75,61 @@ fn main() {
     writeln!(f, "{}", serde_json::json!({"n": n, "prog": prog, "argv": &args[1..], "path_listing": listing, "buildpack_listings": bp_listings, "cwd": std::env::current_dir().ok()})).unwrap();
     let fail: Vec<usize> = std::env::var("FAKECLI_FAIL").unwrap_or_default().split(',').filter_map(|x| x.parse().ok()).collect();
     let hard: Vec<usize> = std::env::var("FAKECLI_HARD").unwrap_or_default().split(',').filter_map(|x| x.parse().ok()).collect();
+    // image existence: a successful `pack build IMAGE` creates the image; `docker rmi` / `docker run`
+    // / `pack sbom download` naming an image that does not exist fail as a consequence
+    {
+        let img_path = format!("{log}.images");
+        let mut images: Vec<String> = std::fs::read_to_string(&img_path).map(|s| s.lines().map(String::from).collect()).unwrap_or_default();
+        let valued = ["--builder", "--cache", "--path", "--pull-policy", "--buildpack", "--env", "--output-dir", "--name", "--platform", "--entrypoint", "--publish", "--mount"];
+        let first_positional = |from: usize| -> Option<String> {
+            let mut i = from;
+            while i < args.len() {
+                if args[i].starts_with("--") {
+                    if valued.contains(&args[i].as_str()) {
+                        i += 1;
+                    }
+                } else {
+                    return Some(args[i].clone());
+                }
+                i += 1;
+            }
+            None
+        };
+        let a1 = args.get(1).map(|s| s.as_str());
+        let a2 = args.get(2).map(|s| s.as_str());
+        let mut consequence: Option<String> = None;
+        if prog == "pack" && a1 == Some("build") {
+            if let Some(img) = first_positional(2) {
+                if !fail.contains(&n) && !images.contains(&img) {
+                    images.push(img);
+                }
+            }
+        } else if prog == "pack" && a1 == Some("sbom") && a2 == Some("download") {
+            if let Some(img) = first_positional(3) {
+                if !images.contains(&img) {
+                    consequence = Some(format!("ERROR: image '{img}' cannot be found"));
+                }
+            }
+        } else if prog == "docker" && (a1 == Some("rmi") || (a1 == Some("image") && (a2 == Some("rm") || a2 == Some("remove")))) {
+            let from = if a1 == Some("rmi") { 2 } else { 3 };
+            let named: Vec<String> = args[from..].iter().filter(|x| !x.starts_with("--")).cloned().collect();
+            if named.iter().any(|x| !images.contains(x)) {
+                consequence = Some("Error response from daemon: No such image".into());
+            }
+            images.retain(|x| !named.contains(x));
+        } else if prog == "docker" && a1 == Some("run") {
+            if let Some(img) = first_positional(2) {
+                if !images.contains(&img) {
+                    consequence = Some(format!("Unable to find image '{img}' locally"));
+                }
+            }
+        }
+        std::fs::write(&img_path, images.join("\n")).unwrap();
+        if let Some(msg) = consequence {
+            eprintln!("{msg}");
+            std::process::exit(if prog == "docker" && a1 == Some("run") { 125 } else { 1 });
+        }
+    }
     if prog == "docker" {
         let state_path = format!("{log}.containers");
         let mut existing: Vec<String> = std::fs::read_to_string(&state_path).map(|s| s.lines().map(String::from).collect()).unwrap_or_default();
